@@ -8,17 +8,24 @@
 
 //@fn id=trait_formatter file=code/formatter.rs name=format in="trait Formatter" props=C01,C02,C13,C14
 //@ret r
+//@container-extra
+    /// the exact result as a function of the content bytes and the seam position
+    spec fn spec_format(&self, b: Seq<u8>, p: int) -> (int, int);
 //@requires
     byte_pos <= content.spec_bytes().len(),
     cb(content.spec_bytes(), byte_pos as int),
 //@ensures label=seam_interval_ws props=C01,C02,C14
     r.0 <= byte_pos <= r.1 <= content.spec_bytes().len(),
     all_ws(content.spec_bytes(), r.0 as int, r.1 as int),
+//@ensures label=seam_is_spec props=C13
+    (r.0 as int, r.1 as int) == self.spec_format(content.spec_bytes(), byte_pos as int),
 //@end
 
 //@item file=code/formatter/indent_remover.rs kind=struct name=IndentRemover
 //@fn id=indent_remover file=code/formatter/indent_remover.rs name=format in="impl Formatter for IndentRemover" props=C01,C02,C13,C14
 //@ret r
+//@container-extra
+    open spec fn spec_format(&self, b: Seq<u8>, p: int) -> (int, int) { indent_spec(b, p) }
 //@ensures label=indent_exact props=C13
     r.1 == byte_pos,
     r.0 == byte_pos || indent_ok(content.spec_bytes(), byte_pos as int, r.0 as int),
@@ -80,6 +87,8 @@
 //@item file=code/formatter/empty_line_remover.rs kind=struct name=EmptyLineRemover
 //@fn id=empty_line_remover file=code/formatter/empty_line_remover.rs name=format in="impl Formatter for EmptyLineRemover" props=C01,C02,C13,C14
 //@ret r
+//@container-extra
+    open spec fn spec_format(&self, b: Seq<u8>, p: int) -> (int, int) { empty_line_spec(b, p) }
 //@ensures label=empty_line_exact props=C13
     (r.0 as int, r.1 as int) == empty_line_spec(content.spec_bytes(), byte_pos as int),
 //@closure 1 params="pos: usize" ret="ret: Option<usize>"
@@ -115,6 +124,8 @@
 //@item file=code/formatter/prev_line_break_remover.rs kind=struct name=PrevLineBreakRemover
 //@fn id=prev_remover file=code/formatter/prev_line_break_remover.rs name=format in="impl Formatter for PrevLineBreakRemover" props=C01,C02,C13,C14
 //@ret r
+//@container-extra
+    open spec fn spec_format(&self, b: Seq<u8>, p: int) -> (int, int) { prev_remover_spec(b, p) }
 //@ensures label=prev_remover_exact props=C13
     (r.0 as int, r.1 as int) == prev_remover_spec(content.spec_bytes(), byte_pos as int),
 //@closure 1 params="pos: usize" ret="ret: Option<usize>"
@@ -135,6 +146,8 @@
 //@item file=code/formatter/next_line_break_remover.rs kind=struct name=NextLineBreakRemover
 //@fn id=next_remover file=code/formatter/next_line_break_remover.rs name=format in="impl Formatter for NextLineBreakRemover" props=C01,C02,C13,C14
 //@ret r
+//@container-extra
+    open spec fn spec_format(&self, b: Seq<u8>, p: int) -> (int, int) { next_remover_spec(b, p) }
 //@ensures label=next_remover_exact props=C13
     (r.0 as int, r.1 as int) == next_remover_spec(content.spec_bytes(), byte_pos as int),
 //@closure 1 params="pos: usize" ret="ret: Option<usize>"
